@@ -110,6 +110,7 @@ package history
 //@   ensures hcur(h) != nil ==> result == curlh(h)
 //@   ensures hcur(h) != nil && old(curlh(h)) != nil ==> result == old(curlh(h))
 //@   ensures (hcur(h) != nil && result == old(curlh(h))) || (fresh(result) && result.pos == 0 && len(result.items) == 0)
+//@   ensures [typed-line-history-kept] hcur(h) != nil && hkey(h) != -1 ==> typedlh(h) == old(typedlh(h))
 
 //@ func (*Sources).Reset
 //@   props C07 C16 C01
@@ -263,6 +264,7 @@ package history
 //@   ensures [position-in-range] hcur(h) != nil ==> -1 <= h.hpos && h.hpos <= max(len(entries(hcur(h))), old(h.hpos))
 //@   ensures [shows-entry] hcur(h) != nil && h.hpos >= 1 && h.hpos <= len(entries(hcur(h))) && h.hpos != old(h.hpos) && (curlh(h) == nil || len(curlh(h).items) == 0) ==> *h.line == runes(entries(hcur(h))[len(entries(hcur(h))) - h.hpos])
 //@   ensures [shows-edited-entry] hcur(h) != nil && h.hpos >= 1 && h.hpos <= len(entries(hcur(h))) && h.hpos != old(h.hpos) && curlh(h) != nil && len(curlh(h).items) > 0 ==> *h.line == runes(curlh(h).items[len(curlh(h).items) - 1].line)
+//@   ensures [saves-typed-text] old(h.hpos) == -1 && pos > 0 && hcur(h) != nil && len(entries(hcur(h))) > 0 ==> typedlh(h) != nil && len(typedlh(h).items) > 0 && typedlh(h).items[len(typedlh(h).items) - 1].line == old(htext(h))
 //@   ensures [step] hcur(h) != nil && len(entries(hcur(h))) > 0 && old(h.hpos) >= 1 && old(h.hpos) + pos >= 1 && old(h.hpos) + pos <= len(entries(hcur(h))) && !(old(h.hpos) == len(entries(hcur(h))) && pos == 1) ==> h.hpos == old(h.hpos) + pos
 
 //@ func (*Sources).Fetch
@@ -330,3 +332,12 @@ package history
 //@   ensures [at-most-one-appended] h.lines == old(h.lines) || (len(h.lines) == old(len(h.lines)) + 1 && h.lines[:old(len(h.lines))] == old(h.lines) && h.lines[old(len(h.lines))].Block == strtrim(s) && h.lines[old(len(h.lines))].Index == old(len(h.lines)))
 //@   ensures [blank-never] len(strtrim(s)) == 0 ==> h.lines == old(h.lines)
 //@   ensures [new-line-always] len(strtrim(s)) > 0 && (old(len(h.lines)) == 0 || old(h.lines)[old(len(h.lines)) - 1].Block != strtrim(s)) ==> len(h.lines) == old(len(h.lines)) + 1
+
+// C11 / C08: every Readline call starts with a clean accept state, so that LineAccepted can only report a
+// line accepted by a command of *this* call (which is what runs Display.AcceptLine before Readline returns).
+//@ func Init
+//@   props C11 C08 C01
+//@   assume_nopanic the hold / infer branches call Walk, InferNext and Line.Set under hypotheses that are the main loop's (A-LOOP); only the accept state matters here
+//@   allow_alias the held line becomes the buffer (Line.Set keeps the slice); the deferred reset drops acceptLine before Init returns, so no second reference survives
+//@   requires hist != nil && hist.line != nil && hist.cursor != nil
+//@   ensures [accept-state-cleared] !hist.accepted && hist.acceptErr == nil && len(hist.acceptLine) == 0 && hist.cpos == -1
